@@ -22,59 +22,110 @@ func (r Result) String() string { return [...]string{"sat", "unsat", "unknown"}[
 
 // Solver is one live SMT solver process driven over stdin/stdout.
 type Solver struct {
-	Name    string
-	cmd     *exec.Cmd
-	in      io.WriteCloser
-	out     *bufio.Reader
-	defined map[int]bool
-	depth   int
-	Queries int
-	Time    time.Duration
-	Errors  []string
-	Log     io.Writer
-	timeout int
+	Name     string
+	spec     SolverSpec
+	cmd      *exec.Cmd
+	in       io.WriteCloser
+	lines    chan string
+	defined  map[int]bool
+	depth    int
+	Queries  int
+	Time     time.Duration
+	Errors   []string
+	Log      io.Writer
+	HardMs   int       // hard limit per check-sat; the process is killed and restarted beyond it
+	stack    [][]*Term // assertions per push level (for restarts)
+	Restarts int
+	Timeouts int
 }
 
 // SolverSpec names a solver back end.
 type SolverSpec struct {
-	Name string
-	Argv []string
+	Name      string
+	Argv      []string
+	TimeoutMs int
 }
 
 func SolverByName(name string, timeoutMs int) SolverSpec {
 	switch name {
 	case "z3-new":
-		return SolverSpec{"z3-new", []string{"z3-new", "-in", fmt.Sprintf("-t:%d", timeoutMs)}}
+		return SolverSpec{"z3-new", []string{"z3-new", "-in", fmt.Sprintf("-t:%d", timeoutMs)}, timeoutMs}
 	case "cvc5-int":
-		return SolverSpec{"cvc5", []string{"cvc5", "--incremental", "--produce-models", "--lang=smt2", "--solve-bv-as-int=sum", fmt.Sprintf("--tlimit-per=%d", timeoutMs)}}
+		return SolverSpec{"cvc5", []string{"cvc5", "--incremental", "--produce-models", "--lang=smt2", "--solve-bv-as-int=sum", fmt.Sprintf("--tlimit-per=%d", timeoutMs)}, timeoutMs}
 	case "cvc5":
-		return SolverSpec{"cvc5", []string{"cvc5", "--incremental", "--produce-models", "--lang=smt2", fmt.Sprintf("--tlimit-per=%d", timeoutMs)}}
+		return SolverSpec{"cvc5", []string{"cvc5", "--incremental", "--produce-models", "--lang=smt2", fmt.Sprintf("--tlimit-per=%d", timeoutMs)}, timeoutMs}
 	default:
-		return SolverSpec{"z3", []string{"z3", "-in", fmt.Sprintf("-t:%d", timeoutMs)}}
+		return SolverSpec{"z3", []string{"z3", "-in", fmt.Sprintf("-t:%d", timeoutMs)}, timeoutMs}
 	}
 }
 
 func StartSolver(spec SolverSpec, log io.Writer) (*Solver, error) {
+	s := &Solver{Name: spec.Name, spec: spec, defined: map[int]bool{}, Log: log, HardMs: spec.TimeoutMs + spec.TimeoutMs/2 + 5000}
+	if err := s.start(); err != nil {
+		return nil, err
+	}
+	return s, nil
+}
+
+func (s *Solver) start() error {
+	spec := s.spec
 	cmd := exec.Command(spec.Argv[0], spec.Argv[1:]...)
 	in, err := cmd.StdinPipe()
 	if err != nil {
-		return nil, err
+		return err
 	}
 	out, err := cmd.StdoutPipe()
 	if err != nil {
-		return nil, err
+		return err
 	}
 	cmd.Stderr = cmd.Stdout
 	if err := cmd.Start(); err != nil {
-		return nil, err
+		return err
 	}
-	s := &Solver{Name: spec.Name, cmd: cmd, in: in, out: bufio.NewReaderSize(out, 1<<16), defined: map[int]bool{}, Log: log}
+	s.cmd, s.in = cmd, in
+	lines := make(chan string, 256)
+	s.lines = lines
+	go func() {
+		r := bufio.NewReaderSize(out, 1<<16)
+		for {
+			l, err := r.ReadString('\n')
+			if l != "" {
+				lines <- l
+			}
+			if err != nil {
+				close(lines)
+				return
+			}
+		}
+	}()
+	s.defined = map[int]bool{}
 	s.send("(set-option :global-declarations true)")
 	s.send("(set-option :produce-models true)")
 	if spec.Name == "cvc5" {
 		s.send("(set-logic ALL)")
 	}
-	return s, nil
+	return nil
+}
+
+// restart kills a stuck solver and rebuilds the assertion stack in a fresh process.
+func (s *Solver) restart() {
+	s.Restarts++
+	if s.cmd != nil {
+		s.cmd.Process.Kill()
+		s.in.Close()
+		go s.cmd.Wait()
+	}
+	if err := s.start(); err != nil {
+		s.Errors = append(s.Errors, "solver restart failed: "+err.Error())
+		return
+	}
+	for _, lvl := range s.stack {
+		s.send("(push 1)")
+		for _, t := range lvl {
+			s.define(t)
+			s.send(fmt.Sprintf("(assert %s)", t.ref()))
+		}
+	}
 }
 
 func (s *Solver) Close() {
@@ -139,6 +190,7 @@ func (s *Solver) define(t *Term) {
 func (s *Solver) Push() {
 	s.send("(push 1)")
 	s.depth++
+	s.stack = append(s.stack, nil)
 }
 
 func (s *Solver) Pop(n int) {
@@ -147,6 +199,7 @@ func (s *Solver) Pop(n int) {
 	}
 	s.send(fmt.Sprintf("(pop %d)", n))
 	s.depth -= n
+	s.stack = s.stack[:len(s.stack)-n]
 }
 
 func (s *Solver) Depth() int { return s.depth }
@@ -154,10 +207,27 @@ func (s *Solver) Depth() int { return s.depth }
 func (s *Solver) Assert(t *Term) {
 	s.define(t)
 	s.send(fmt.Sprintf("(assert %s)", t.ref()))
+	if len(s.stack) > 0 {
+		s.stack[len(s.stack)-1] = append(s.stack[len(s.stack)-1], t)
+	}
 }
 
-func (s *Solver) readLine() (string, error) {
-	l, err := s.out.ReadString('\n')
+var errSolverTimeout = fmt.Errorf("solver hard timeout")
+
+func (s *Solver) readRaw(limit time.Duration) (string, error) {
+	select {
+	case l, ok := <-s.lines:
+		if !ok {
+			return "", io.EOF
+		}
+		return l, nil
+	case <-time.After(limit):
+		return "", errSolverTimeout
+	}
+}
+
+func (s *Solver) readLine(limit time.Duration) (string, error) {
+	l, err := s.readRaw(limit)
 	return strings.TrimSpace(l), err
 }
 
@@ -167,10 +237,17 @@ func (s *Solver) Check() Result {
 	s.send("(check-sat)")
 	s.Queries++
 	defer func() { s.Time += time.Since(t0) }()
+	deadline := time.Now().Add(time.Duration(s.HardMs) * time.Millisecond)
 	for {
-		l, err := s.readLine()
+		l, err := s.readLine(time.Until(deadline))
+		if err == errSolverTimeout {
+			s.Timeouts++
+			s.restart()
+			return Unknown
+		}
 		if err != nil {
 			s.Errors = append(s.Errors, "solver died: "+err.Error())
+			s.restart()
 			return Unknown
 		}
 		switch {
@@ -226,8 +303,9 @@ func (s *Solver) Values(ts []*Term) (map[*Term]uint64, error) {
 	depth := 0
 	started := false
 	for {
-		l, err := s.out.ReadString('\n')
+		l, err := s.readRaw(60 * time.Second)
 		if err != nil {
+			s.restart()
 			return nil, err
 		}
 		if strings.HasPrefix(strings.TrimSpace(l), "(error") {
